@@ -659,7 +659,12 @@ fn format_type_info_internal(
                     |ctx, type_info, shape| format_hangable_type_info(ctx, type_info, shape, 0),
                     shape,
                 )
-            } else if types.len() == 1 && !keep_parentheses(types.iter().next().unwrap(), context) {
+            } else if types.len() == 1
+                && !keep_parentheses(types.iter().next().unwrap(), context)
+                // Comments just inside the parentheses (`( --[[comment]] T)`) would be lost if we removed them
+                && !start_brace.has_trailing_comments(CommentSearch::All)
+                && !end_brace.has_leading_comments(CommentSearch::All)
+            {
                 // If its just a single type inside parentheses, and its not a function or composite type, then remove the parens
                 let internal_type = singleline_types.into_iter().next().unwrap();
 
